@@ -249,6 +249,14 @@ def load(model, path, nit, workdir):
         return pint.UnitRegistry(fn, non_int_type=T)
     if path == "define":
         ureg = pint.UnitRegistry(None, non_int_type=T)
+        # the spellings the file is about to introduce are asked for first (the usual 'if name not in ureg: define(...)'): what the registry
+        # answered while they did not exist must not survive their definition
+        for u_ in model["units"]:
+            for probe in [u_["name"], u_["name"] + "s"] + [p_["name"] + u_["name"] for p_ in model["prefixes"][:1]]:
+                try:
+                    probe in ureg
+                except Exception:  # noqa: BLE001
+                    pass
         block = None
         for ln in lines:
             s = ln.split("#", 1)[0].strip()
@@ -277,6 +285,30 @@ def battery(ureg, model, nit, path):
         st_, n = attempt(ureg.get_name, s)
         if st_ == "err" or n != canon:
             raise Violation("spelling_not_as_written", f"[{path}/{nit}] get_name({s!r}) = {n!r}, written {canon!r}")
+    # derived spellings: plural and prefixed forms of every unit name (asserted where the model admits exactly one decomposition)
+    psp = {}
+    for p_ in model["prefixes"]:
+        for x in [p_["name"]] + ([p_["symbol"]] if p_["symbol"] else []) + p_["aliases"]:
+            psp[x] = p_["name"]
+    def _readings(t):
+        out = set()
+        for suf in ("", "s"):
+            stem = t[: len(t) - len(suf)] if suf and t.endswith(suf) else (t if not suf else None)
+            if stem is None:
+                continue
+            for px, pn in list(psp.items()) + [("", "")]:
+                if stem.startswith(px) and stem[len(px):] in sp:
+                    out.add((pn, sp[stem[len(px):]]))
+        return out
+    for u_ in model["units"]:
+        for t in [u_["name"] + "s"] + [p_["name"] + u_["name"] for p_ in model["prefixes"]] + [p_["name"] + u_["name"] + "s" for p_ in model["prefixes"][:1]]:
+            rs = _readings(t)
+            if t in sp or len(rs) != 1:
+                continue
+            (pn, un), = rs
+            st_, n = attempt(ureg.get_name, t)
+            if st_ == "err" or n != pn + un:
+                raise Violation("derived_spelling_not_resolved", f"[{path}/{nit}] get_name({t!r}) = {n!r}, the definitions give {pn + un!r}")
     # every spelling is also in the case-insensitive table (asked per call), unless two spellings only differ by case
     lower = {}
     for s, canon in sp.items():
